@@ -67,6 +67,14 @@ class M(object):
         assert kind in KINDS, kind
         self.kind = kind
         self.patterns = [dict(p) for p in (patterns or [{}])]
+        # options are also explored TOGETHER: the union of all single-option
+        # patterns (a later value for the same keyword wins) joins the list
+        union = {}
+        for p in self.patterns:
+            union.update(p)
+        if len(union) >= 2 and union not in self.patterns and \
+                sum(1 for p in self.patterns if p) >= 2:
+            self.patterns.append(union)
         self.flags = frozenset(flags)
         self.sub = sub          # for kind == "dict"
         self.src = src          # for "floatbin": the binned node sequence
